@@ -273,6 +273,9 @@ pub enum WOp {
     Overflow,
     /// append 12000 bytes to /s2 and flush (with the big buffer: one write-back of 12000 bytes)
     BigWrite,
+    /// set_len on /bad, a stream whose entry claims 70 bytes but has no chain: the resize fails
+    /// inside the library while the write lock is held (error path of a writer op)
+    FailingSetLen,
 }
 
 #[derive(Clone, Copy, Debug, PartialEq, Eq, Serialize, Deserialize)]
@@ -292,7 +295,7 @@ pub enum ROp {
     Recursive,
 }
 
-pub const ALL_WOPS: [WOp; 6] = [WOp::WriteSmall, WOp::WriteLarge, WOp::Shrink, WOp::Grow, WOp::ReadSome, WOp::Overflow];
+pub const ALL_WOPS: [WOp; 7] = [WOp::WriteSmall, WOp::WriteLarge, WOp::Shrink, WOp::Grow, WOp::ReadSome, WOp::Overflow, WOp::FailingSetLen];
 pub const ALL_ROPS: [ROp; 11] = [ROp::Entry, ROp::Exists, ROp::IsStream, ROp::IsStorage, ROp::RootEntry, ROp::ReadStorage, ROp::ReadRoot, ROp::Walk, ROp::WalkStorage, ROp::WalkLookup, ROp::Recursive];
 
 #[derive(Clone, Debug, Serialize, Deserialize)]
@@ -322,12 +325,20 @@ fn base_image(version: u16) -> Vec<u8> {
     live.comp.create_storage("/d").unwrap();
     live.comp.set_created_time("/d", ts).unwrap();
     live.comp.set_modified_time("/d", ts).unwrap();
-    for (p, n) in [("/s1", 300usize), ("/s2", 6000), ("/d/x", 10), ("/a", 0), ("/zz", 70)] {
+    for (p, n) in [("/s1", 300usize), ("/s2", 6000), ("/d/x", 10), ("/a", 0), ("/zz", 70), ("/bad", 70)] {
         let mut s = live.comp.create_stream(p).unwrap();
         s.write_all(&ops::pattern(n as u64, n)).unwrap();
         s.flush().unwrap();
     }
-    live.snapshot()
+    // one damaged entry: /bad keeps its length but loses its chain (start sector = ENDOFCHAIN)
+    let mut image = live.snapshot();
+    let p = crate::spec::parse(&image).expect("parse base");
+    let per = p.sector_len / 128;
+    let want: Vec<u16> = "bad".encode_utf16().collect();
+    let idx = p.dir.iter().position(|e| e.obj_type == 2 && e.name_units[..3] == want[..] && e.name_len == 8).expect("/bad entry");
+    let off = p.sector_off(p.dir_sectors[idx / per]) + (idx % per) * 128;
+    image[off + 116..off + 120].copy_from_slice(&0xFFFF_FFFEu32.to_le_bytes());
+    image
 }
 
 type CF = CompoundFile<MemFile>;
@@ -381,6 +392,7 @@ fn do_rop(comp: &CF, op: ROp) -> Vec<String> {
 }
 
 struct Handles {
+    bad: ops::NoDropOnPanic<cfb::Stream<MemFile>>,
     s1: ops::NoDropOnPanic<cfb::Stream<MemFile>>,
     s2: ops::NoDropOnPanic<cfb::Stream<MemFile>>,
 }
@@ -444,6 +456,10 @@ fn do_wop(h: &mut Handles, op: WOp, i: usize, tick: &mut dyn FnMut(bool)) -> Str
                 prim(tick, || h.s2.seek(SeekFrom::Start(10)))?;
                 write_all(&mut h.s2, &ops::pattern(92 + i as u64, 2500), tick)?;
                 Ok("ok".into())
+            }
+            WOp::FailingSetLen => {
+                let r = prim(tick, || h.bad.set_len(200));
+                Ok(format!("set_len on the damaged stream: {}", if r.is_ok() { "Ok" } else { "Err" }))
             }
             WOp::BigWrite => {
                 prim(tick, || h.s2.seek(SeekFrom::End(0)))?;
@@ -533,7 +549,7 @@ pub fn run_schedule(case: &SchedCase, image: &[u8], prefix: &[usize], pool: &Poo
     let sched = Arc::new(Sched::new(n, case.policy, prefix.to_vec()));
     let mem = MemFile::new(image.to_vec());
     let mut comp: CF = cfb::OpenOptions::new().max_buffer_size(case.max_buf()).open_with(mem).expect("open base image");
-    let mut handles = Handles { s1: ops::NoDropOnPanic::new(comp.open_stream("/s1").expect("s1")), s2: ops::NoDropOnPanic::new(comp.open_stream("/s2").expect("s2")) };
+    let mut handles = Handles { bad: ops::NoDropOnPanic::new(comp.open_stream("/bad").expect("bad")), s1: ops::NoDropOnPanic::new(comp.open_stream("/s1").expect("s1")), s2: ops::NoDropOnPanic::new(comp.open_stream("/s2").expect("s2")) };
     let comp = Arc::new(comp);
     let wdone = Arc::new(AtomicUsize::new(0)); // completed writer handle calls
     let wbusy = Arc::new(AtomicUsize::new(0)); // 1 while a writer handle call is in progress
@@ -600,7 +616,7 @@ pub fn run_schedule(case: &SchedCase, image: &[u8], prefix: &[usize], pool: &Poo
 pub fn sequential_reference(case: &SchedCase, image: &[u8]) -> (Vec<std::collections::BTreeMap<String, Vec<String>>>, Vec<String>) {
     let mem = MemFile::new(image.to_vec());
     let mut comp: CF = cfb::OpenOptions::new().max_buffer_size(case.max_buf()).open_with(mem).expect("open base image");
-    let mut handles = Handles { s1: ops::NoDropOnPanic::new(comp.open_stream("/s1").expect("s1")), s2: ops::NoDropOnPanic::new(comp.open_stream("/s2").expect("s2")) };
+    let mut handles = Handles { bad: ops::NoDropOnPanic::new(comp.open_stream("/bad").expect("bad")), s1: ops::NoDropOnPanic::new(comp.open_stream("/s1").expect("s1")), s2: ops::NoDropOnPanic::new(comp.open_stream("/s2").expect("s2")) };
     let mut table = Vec::new();
     let mut wres = Vec::new();
     let snapshot = |comp: &CF| {
@@ -635,9 +651,51 @@ pub struct ConfigStats {
 }
 
 /// Deviation-bounded DFS over choice sequences for one configuration.
+/// Lock bookkeeping for the single-threaded reference run: a thread that asks for the lock in a
+/// mode it can never get while holding it itself would block forever in the real lock.
+struct SelfDeadlockObs {
+    reads: std::sync::atomic::AtomicUsize,
+    writes: std::sync::atomic::AtomicUsize,
+}
+
+impl LockObserver for SelfDeadlockObs {
+    fn before_acquire(&self, _lock: usize, kind: LockKind) {
+        use std::sync::atomic::Ordering::SeqCst;
+        let (r, w) = (self.reads.load(SeqCst), self.writes.load(SeqCst));
+        if w > 0 || (kind != LockKind::Read && r > 0) {
+            panic!("SELF-DEADLOCK: the thread requests the lock for {:?} while it holds it itself ({} read guard(s), {} write guard(s))", kind, r, w);
+        }
+    }
+    fn after_acquire(&self, _lock: usize, kind: LockKind) {
+        use std::sync::atomic::Ordering::SeqCst;
+        if kind == LockKind::Read { self.reads.fetch_add(1, SeqCst) } else { self.writes.fetch_add(1, SeqCst) };
+    }
+    fn after_release(&self, _lock: usize, kind: LockKind) {
+        use std::sync::atomic::Ordering::SeqCst;
+        if kind == LockKind::Read { self.reads.fetch_sub(1, SeqCst) } else { self.writes.fetch_sub(1, SeqCst) };
+    }
+}
+
 pub fn explore_config(ctx: &Ctx, case: &SchedCase, image: &[u8], max_preemptions: Option<usize>, cap: u64) -> ConfigStats {
-    let (table, wref) = sequential_reference(case, image);
     let mut stats = ConfigStats { schedules: 0, choice_points: 0, steps: 0, outcomes: BTreeSet::new(), bound_completed: None, capped: false };
+    // the sequential reference runs the real code on this thread: a self-deadlock must not hang the check
+    set_thread_observer(Some(Arc::new(SelfDeadlockObs { reads: Default::default(), writes: Default::default() })));
+    let seq = ops::guarded(|| sequential_reference(case, image));
+    set_thread_observer(None);
+    let (table, wref) = match seq {
+        Ok(x) => x,
+        Err(p) => {
+            let class = if p.contains("SELF-DEADLOCK") { "deadlock" } else { "panic" };
+            ctx.report(Violation {
+                class: class.into(),
+                sig: format!("{}:sequential:{}", class, crate::report::sig_norm(&p).chars().take(80).collect::<String>()),
+                msg: format!("single-threaded run of writer {:?} / readers {:?}: {}", case.writer, case.readers, p),
+                replay: json!({"kind": "sched", "sched": case, "choices": []}),
+            });
+            stats.bound_completed = max_preemptions;
+            return stats;
+        }
+    };
     let pool = Pool::new(case.readers.len());
     let mut stack: Vec<Vec<usize>> = vec![vec![]];
     while let Some(prefix) = stack.pop() {
